@@ -36,6 +36,8 @@ def draw(seed, i):
                     "rvlimit": rng.choice([1, 2, 3, 10, 50, 500]),
                     "max_connections": rng.choice([1, 2, 10, 20]),
                     "max_requests_per_second": rng.choice([0, 0, 0, 2, 20])}}
+    if spec.get("long_titles"):
+        cfg["conf"]["api_request_limit"] = rng.choice([15, 50, 15])  # the default and the maximum
     if len(spec["metabook"]) > 50:
         # a big book with generous limits (the defaults are 15 values per request, 500 results per answer)
         cfg["conf"]["api_result_limit"] = rng.choice([500, 500, 50])
